@@ -206,9 +206,9 @@ Prop_C05(S) ==
   \* a request that REACHED a bridge (recorded by the wrapper around the real message server) is exactly
   \* the expected one also when the bridge then refuses it and the transfer fails
   /\ (IsOrbiterPacket(S) /\ ~S.ok /\ ~S.panic /\ S.in.mk = "PAYLOAD" /\ AmtKind(S.in) = "num" /\ ~HasSwap(S)
-        /\ S.fullReq /\ S.req # <<>> /\ S.fired = {} /\ ParseOK(S.in) /\ PayloadValid(S.in) =>
-        /\ Len(S.req) = 1 /\ ~Unrouted(S.in) /\ ~Mismatch(S.in)
-        /\ S.req[1] = ExpectedReq(S.in.fw, PostActionCoin(S)))
+        /\ S.reached # <<>> /\ S.fired = {} /\ ParseOK(S.in) /\ PayloadValid(S.in) =>
+        /\ Len(S.reached) = 1 /\ ~Unrouted(S.in) /\ ~Mismatch(S.in)
+        /\ Mask(S.reached[1], TRUE) = Mask(ExpectedReq(S.in.fw, PostActionCoin(S)), TRUE))
   /\ (IsAdmin(S) /\ S.in.rpc = "ReplaceDepositForBurn" /\ S.in.signer = "AUTH" /\ S.fullReq =>
         S.req = <<ReplaceReq(S.in)>>)
 
@@ -255,6 +255,9 @@ Prop_C08(S) ==
   /\ (HasPayload(S) /\ S.ctl.nopause.run /\ S.ctl.nopause.ok
         /\ ~Blocked(S.pre, Dst(S)) /\ ~ActionPaused(S.pre, S.in) => S.ok)
   /\ (~(IsPauseMsg(S) /\ S.ok) /\ ~ReplacesState(S) => PauseSets(S.post) = PauseSets(S.pre))
+  \* a chain started from a valid genesis document has exactly the document's destinations paused
+  /\ (S.in.t = "gendoc" /\ S.gen.initOk /\ GenValid(S.in.g) =>
+        S.post.pProto = ToSet(S.in.g.pp) /\ S.post.pCC = {<<S.in.g.pcc[i].p, S.in.g.pcc[i].cp>> : i \in DOMAIN S.in.g.pcc})
   /\ (IsPauseMsg(S) /\ S.ok =>
         CASE S.in.rpc = "PauseProtocol" ->
                S.post.pProto = S.pre.pProto \cup {S.in.pid} /\ S.post.pCC = S.pre.pCC
@@ -280,6 +283,8 @@ Prop_C09(S) ==
   /\ (~(IsAdmin(S) /\ S.in.rpc \in ActionRpcs /\ S.ok) /\ ~ReplacesState(S) => S.post.pAct = S.pre.pAct)
   /\ (IsAdmin(S) /\ S.in.rpc = "PauseAction" /\ S.ok => S.post.pAct = S.pre.pAct \cup {S.in.aid})
   /\ (IsAdmin(S) /\ S.in.rpc = "UnpauseAction" /\ S.ok => S.post.pAct = S.pre.pAct \ {S.in.aid})
+  \* a chain started from a valid genesis document has exactly the document's actions paused
+  /\ (S.in.t = "gendoc" /\ S.gen.initOk /\ GenValid(S.in.g) => S.post.pAct = ToSet(S.in.g.pa))
   /\ (S.hasQ =>
         /\ S.q.qAct = S.post.pAct
         /\ \A r \in S.q.isAct : r.ok /\ (r.v <=> r.p \in S.post.pAct))
@@ -334,6 +339,8 @@ Prop_C18(S) ==
         S.post.hasParams /\ S.post.maxPT = (IF S.in.v < 0 THEN BIG ELSE S.in.v))
   /\ (~(IsAdmin(S) /\ S.in.rpc = "UpdateParams" /\ S.ok) /\ ~ReplacesState(S) =>
         Limit(S.post) = Limit(S.pre))
+  /\ (S.in.t = "gendoc" /\ S.gen.initOk /\ GenValid(S.in.g) =>      \* "... most recently set by genesis"
+        S.post.hasParams /\ S.post.maxPT = (IF S.in.g.params < 0 THEN BIG ELSE S.in.g.params))
   /\ (S.hasQ => S.q.qParamsOk /\ S.q.qParams = Limit(S.post))
 
 (* C15 Only well-formed payloads are accepted, and encoding round-trips *)
